@@ -44,6 +44,7 @@ type FuncContract struct {
 	Requires []*Clause
 	Ensures  []*Clause
 	Captured []*Clause // behaviour contracts: ASSUMED facts about captured variables (not checked at call sites)
+	AtCalls  []*Clause // assertions at every call of a named callee (Tags[..], Callee in Kind)
 	Checks   []*Clause // like ensures, but verified only (not exported to callers); may mention locals
 	Assigns  []*Clause
 	HasAssigns bool
@@ -127,7 +128,7 @@ type GlobalFact struct {
 
 var clauseKeywords = map[string]bool{"func": true, "spec": true, "axiom": true, "requires": true, "ensures": true,
 	"assigns": true, "effects": true, "nilable": true, "loop": true, "pure": true, "trusted": true, "iface": true,
-	"import": true, "inline": true, "global": true, "props": true, "split": true, "reveal": true, "use": true, "typeinv": true, "behaves": true, "behaviour": true, "check": true, "captured": true}
+	"import": true, "inline": true, "global": true, "props": true, "split": true, "reveal": true, "use": true, "typeinv": true, "behaves": true, "behaviour": true, "check": true, "captured": true, "atcall": true}
 
 func firstWord(s string) string {
 	s = strings.TrimSpace(s)
@@ -209,6 +210,26 @@ func (P *Program) parseClauses(lines []cline, sc *Scope, pkgPath string, lib boo
 				return errf(l, "import %q: package not loaded", path)
 			}
 			sc.Aliases[fs[0]] = tp
+		case "atcall":
+			// atcall <callee suffix>: [{tags}] expr   — asserted before every call of that callee, over locals
+			i := strings.Index(rest, ":")
+			if i < 0 || cur == nil {
+				return errf(l, "atcall <callee>: expr expected")
+			}
+			callee := strings.TrimSpace(rest[:i])
+			text := strings.TrimSpace(rest[i+1:])
+			var tags []string
+			if m := reTags.FindStringSubmatch(text); m != nil {
+				for _, t := range strings.Split(m[1], ",") {
+					tags = append(tags, strings.TrimSpace(t))
+				}
+				text = text[len(m[0]):]
+			}
+			e, err := parseSpecExpr(text)
+			if err != nil {
+				return errf(l, "%v in %q", err, text)
+			}
+			cur.AtCalls = append(cur.AtCalls, &Clause{Kind: callee, Text: text, Expr: e, Tags: tags, File: l.file, Line: l.line})
 		case "behaves":
 			fs := strings.Fields(rest)
 			if len(fs) != 2 || cur == nil {
